@@ -424,7 +424,8 @@ def run_loop(case: dict[str, Any]) -> dict[str, Any]:
                 sim.kube.edit(*KEX, n, {'spec': {'x': i + 100}})
             else:
                 sim.kube.delete(*KEX, n)
-        await sim.sleep(case['nops'] * (dur + 0.1) + case['idle'] + 5.0)
+        # generous: with a worker limit every switch between objects may cost a full idle timeout
+        await sim.sleep((case['nops'] + case['nobj'] + 2) * (dur + case['idle'] + 1.0) + 20.0)
         await op.stop_and_wait(120.0)
 
     sim.run(scenario)
